@@ -16,3 +16,21 @@ Definition rstep (v : variant) (callss : list (list callspec)) (rs : rstate) (k 
 (* what the registry enumerates: the links whose remote is registered *)
 Definition enumerated (rs : rstate) : list nat :=
   flat_map (fun p => if Nat.eqb (remotes (snd p)) 1 then [fst p] else []) (combine (seq 0 (length rs)) rs).
+
+(* runs of the product: each step names the link that moves *)
+Fixpoint rrun (v : variant) (callss : list (list callspec)) (rs : rstate) (sched : list (nat * choice * nat)) : option rstate :=
+  match sched with
+  | [] => Some rs
+  | (k, c, b) :: r => match rstep v callss rs k c b with Some rs' => rrun v callss rs' r | None => None end
+  end.
+
+Definition rinit (n : nat) : rstate := repeat linit n.
+Definition rreachable (v : variant) (callss : list (list callspec)) (n : nat) (rs : rstate) : Prop :=
+  exists sched, rrun v callss (rinit n) sched = Some rs.
+
+(* identities: link k carries the fresh id [rid k]; handlers of link k read [rid k] from their context,
+   the connect / disconnect notifications of link k carry [rid k], the enumeration lists [rid k] *)
+Section Ids.
+Variable rid : nat -> N.
+Definition enumerated_ids (rs : rstate) : list N := map rid (enumerated rs).
+End Ids.
